@@ -1,1 +1,11 @@
-import CG.Model.TS
+import CG.Proofs.C14
+
+#print axioms CG.C14.minimal_ok
+#print axioms CG.C14.minimal_edges
+#print axioms CG.C14.minimal_nodes
+#print axioms CG.C14.minimal_meta
+#print axioms CG.C14.minimal_hyp
+#print axioms CG.C14.minimal_idem_shape
+#print axioms CG.C14.minimal_attrs
+#print axioms CG.C14.isMinimal_iff
+#print axioms CG.C14.isMinimal_ok
